@@ -88,7 +88,7 @@ def run(sid, props, tier="quick"):
             saved[ev] = open(ev).read()
     if rc != 0:
         print(sid, "PATCH DOES NOT APPLY", out[-300:])
-        sh("git -C /repo checkout -q -- . && git -C /repo reset -q")
+        sh("git -C /repo reset -q --hard HEAD")
         return None
     try:
         for p in props:
@@ -110,7 +110,7 @@ def run(sid, props, tier="quick"):
                                        else {"check": f"./check {p} quick", "exit": 0, "how": "MISSED"})
                 json.dump(meta, open(os.path.join(d, "meta.json"), "w"), indent=1)
     finally:
-        sh("git -C /repo reset -q && git -C /repo checkout -q -- .")
+        sh("git -C /repo reset -q --hard HEAD")
         for ev, txt in saved.items():
             with open(ev, "w") as fh:
                 fh.write(txt)
